@@ -96,4 +96,37 @@ ViewsEx(ev) == {"C02.transform_is_XLt", "C02.M_is_LtL", "C02.M_symmetric", "C02.
             "C02.pair_score", "C02.score_pairs_same_as_pair_distance", "C02.get_metric",
             "C02.get_metric_squared", "C02.euclid_of_transform", "C02.quadform_of_M", "C02.M_psd"}
             \cup {"C02.repr." \o ev.reprs[r].name : r \in 1..Len(ev.reprs)}
+
+(***************************************************************************)
+(* Behaviours recorded from the REPOSITORY'S OWN TEST SUITE (pytest plugin *)
+(* harness/verif_trace_plugin.py): every outermost public call on a        *)
+(* library estimator with the components_ in force.  The same definitions  *)
+(* are applied to them, so the suite's executions are checked at every     *)
+(* call, not only where a test happens to assert something.                *)
+(***************************************************************************)
+CallPairsFails(ev) ==
+  LET L == ev.L
+      n == Len(ev.pairs)
+      pts == [i \in 1..(2 * n) |-> ev.pairs[(i + 1) \div 2][IF i % 2 = 1 THEN 1 ELSE 2]]
+      S == ScaleOf(L, pts)
+      d2(i) == DH!SqDist(L, ev.pairs[i][1], ev.pairs[i][2])
+      signOK(v) == IF ev.method \in {"pair_distance", "score_pairs"} THEN ~IsNeg(v) ELSE ~IsPos(v)
+  IN F("C02.suite_call_" \o ev.method,
+       Len(ev.out) = n /\ AllFinV(ev.out) /\
+       \A i \in 1..n : signOK(ev.out[i]) /\ Approx(Sq(ev.out[i]), d2(i), 2, 3, Sq(S)))
+CallTransformFails(ev) ==
+  LET S == ScaleOf(ev.L, ev.X) IN
+  F("C02.suite_call_transform",
+    Len(ev.out) = Len(ev.X) /\ AllFinM(ev.out) /\
+    \A i \in 1..Len(ev.X) : ApproxV(ev.out[i], DH!Embed(ev.L, ev.X[i]), 2, 3, S))
+(* predict = +1 iff distance <= threshold_, decided on squares; a distance within 2^-30 of the threshold follows the code *)
+CallPredictFails(ev) ==
+  LET n == Len(ev.pairs)
+      t2 == Sq(ev.thr)
+      d2(i) == DH!SqDist(ev.L, ev.pairs[i][1], ev.pairs[i][2])
+      clearlyIn(i)  == ~IsNeg(ev.thr) /\ Leq(Add(d2(i), Shift(d2(i), -2)), t2)
+      clearlyOut(i) == IsNeg(ev.thr) \/ Gt(d2(i), Add(t2, Shift(t2, -2)))
+  IN F("C04.suite_call_predict",
+       Len(ev.out) = n /\ (IsFin(ev.thr) =>
+       \A i \in 1..n : (clearlyIn(i) => ev.out[i] = 1) /\ (clearlyOut(i) => ev.out[i] = -1) /\ ev.out[i] \in {-1, 1}))
 =============================================================================
